@@ -675,6 +675,9 @@ def apply_op(store, op):
         eff = set(op[4]) if op[4] is not None else set(labels) | {'l', 'g'}
         if len(eff) < 2 or len(set(labels)) != len(labels):
             return ['skip'], None           # the stream would become single-phase half-way: C12's domain
+        if op[3] >= 8 and any(p not in eff for p in labels):
+            return ['skip'], None           # a wrong-dimension unit AND a phase label outside the phases asked for: which of the two
+                                            # errors wins depends on the order of checks inside set_flow, which the model does not fix
         pf = [[p, [[PKGS[pkg_of(s)].index(c), v] for c, v in fl]] for p, fl in op[5]]
         res = ['reset_flow_m', i, op[2], op[3], None if op[4] is None else list(op[4]), pf]
         return res, run(lambda: s.reset_flow(total_flow=op[2], units=UNITS[op[3]], phases=None if op[4] is None else tuple(op[4]),
